@@ -377,3 +377,81 @@ pub fn inspector_balance() -> String {
     }
     format!("{}{}", if bad { "UNBALANCED " } else { "balanced " }, out)
 }
+
+// ---------------------------------------------------------------- is the beneficiary paid after a reconfiguration with rewards off?
+pub fn reward_paid(op: &str) -> String {
+    use revm::primitives::TxKind;
+    use revm::Evm;
+    let coinbase = address!("c000000000000000000000000000000000000001");
+    let mut db = CacheDB::new(EmptyDB::default());
+    db.insert_account_info(CALLER, AccountInfo { nonce: 0, balance: U256::from(1_000_000_000u64), code_hash: B256::default(), code: None });
+    let handler: Handler<'_, revm::Context<(), CacheDB<EmptyDB>>, (), CacheDB<EmptyDB>> = Handler::mainnet_with_spec(SpecId::CANCUN, false);
+    let mut evm = Evm::builder()
+        .with_db(db)
+        .with_handler(handler)
+        .modify_tx_env(|tx| {
+            tx.caller = CALLER;
+            tx.transact_to = TxKind::Call(TARGET);
+            tx.gas_limit = 100_000;
+            tx.gas_price = U256::from(10);
+        })
+        .modify_block_env(|b| {
+            b.coinbase = coinbase;
+            b.basefee = U256::ZERO;
+        })
+        .build();
+    match op {
+        "none" => {}
+        "modify_spec_id" => evm.handler.modify_spec_id(SpecId::SHANGHAI),
+        "pop_handle_register" => {
+            fn noop(_h: &mut revm::handler::register::EvmHandler<'_, (), CacheDB<EmptyDB>>) {}
+            evm.handler.append_handler_register_plain(noop);
+            let _ = evm.handler.pop_handle_register();
+        }
+        "create_handle_generic" => {
+            evm.handler = evm.handler.create_handle_generic::<revm::primitives::ShanghaiSpec>();
+        }
+        _ => panic!("unknown op"),
+    }
+    let r = evm.transact().expect("tx runs");
+    let got = r.state.get(&coinbase).map(|a| a.info.balance).unwrap_or(U256::ZERO);
+    format!("coinbase_received={} gas_used={}", got, r.result.gas_used())
+}
+
+// ---------------------------------------------------------------- selfdestruct twice with value in between conserves ether
+pub fn selfdestruct_sum() -> String {
+    let other = address!("3000000000000000000000000000000000000003");
+    let mut db = CacheDB::new(EmptyDB::default());
+    db.insert_account_info(CALLER, AccountInfo { nonce: 0, balance: U256::from(100), code_hash: B256::default(), code: None });
+    db.insert_account_info(TARGET, AccountInfo { nonce: 1, balance: U256::from(7), code_hash: B256::default(), code: None });
+    db.insert_account_info(other, AccountInfo { nonce: 0, balance: U256::from(1), code_hash: B256::default(), code: None });
+    let mut js = JournaledState::new(SpecId::SHANGHAI, HashSet::default());
+    for a in [CALLER, TARGET, other] {
+        let _ = js.load_account(a, &mut db);
+    }
+    let total = |js: &JournaledState| [CALLER, TARGET, other].iter().fold(U256::ZERO, |s, a| s + js.state.get(a).unwrap().info.balance);
+    let before = total(&js);
+    js.selfdestruct(TARGET, other, &mut db).expect("no db error");
+    js.transfer(&CALLER, &TARGET, U256::from(4), &mut db).expect("no db error");
+    js.selfdestruct(TARGET, other, &mut db).expect("no db error");
+    format!("total_before={} total_after={}", before, total(&js))
+}
+
+// ---------------------------------------------------------------- exact gas limit with a refund: the refunded gas is paid back
+pub fn reimburse_exact_gas() -> String {
+    use revm::handler::mainnet::reimburse_caller;
+    use revm::interpreter::Gas;
+    use revm::primitives::CancunSpec;
+    let mut db = CacheDB::new(EmptyDB::default());
+    db.insert_account_info(CALLER, AccountInfo { nonce: 0, balance: U256::from(1000), code_hash: B256::default(), code: None });
+    let mut ctx: revm::Context<(), CacheDB<EmptyDB>> = revm::Context::new(EvmContext::new(db), ());
+    ctx.evm.inner.env.tx.caller = CALLER;
+    ctx.evm.inner.env.tx.gas_price = U256::from(10);
+    let mut g = Gas::new(50_000);
+    let _ = g.record_cost(50_000); // everything spent ...
+    g.record_refund(4_800); // ... but a refund was earned
+    reimburse_caller::<CancunSpec, (), CacheDB<EmptyDB>>(&mut ctx, &g).expect("no db error");
+    let bal = ctx.evm.inner.journaled_state.state.get(&CALLER).unwrap().info.balance;
+    let want = U256::from(1000 + 10 * 4_800);
+    format!("caller_balance={} expected={} lost={}", bal, want, want.saturating_sub(bal))
+}
